@@ -53,10 +53,34 @@ let show_addr = function
   | None -> "nil"
   | Some b -> (match to4 b with Some v -> "h" ^ hexs v | None -> "h" ^ hexs b)
 
+(* The choice the property leaves to the implementation when nothing usable is assigned: which non-zero
+   proposals it refuses.  It is read off the implementation's own line (every 3.<4 non-zero bytes> entry of a
+   Reject list) and handed to the model, which consults it ONLY in that mode: with a usable assignment a
+   rejected proposal still makes the model answer Nak, i.e. the lines differ. *)
+let refused_of (impl : string) : string list =
+  let acc = ref [] in
+  let add_list l =
+    if l <> "-" then List.iter (fun p ->
+      if String.length p = 10 && String.sub p 0 2 = "3." && String.sub p 2 8 <> "00000000" then
+        acc := String.sub p 2 8 :: !acc) (String.split_on_char ',' l) in
+  List.iter (fun tok ->
+    let n = String.length tok in
+    if n > 2 && String.sub tok 0 2 = "R=" then add_list (String.sub tok 2 (n - 2))
+    else if n > 4 && String.sub tok 0 4 = "scj:" then
+      (match String.split_on_char ':' tok with [_; _; l] -> add_list l | _ -> ())) (tokens impl);
+  !acc
+
 let () =
   let lines = read_lines Sys.argv.(1) in
+  let impl_lines = if Array.length Sys.argv > 2 && Sys.argv.(2) <> "-" then read_lines Sys.argv.(2) else [] in
+  let impl_arr = Array.of_list impl_lines in
+  let idx = ref (-1) in
   let fl = flags_of (if Array.length Sys.argv > 3 then Sys.argv.(3) else "repaired") in
   List.iter (fun line ->
+    incr idx;
+    let refused = if !idx < Array.length impl_arr then refused_of impl_arr.(!idx) else [] in
+    let refuse (b : n list) : bool = List.mem (hexs b) refused in
+    let ipcp_cfg_of pa d1 d2 = with_refuse (ipcp_cfg_of pa d1 d2) refuse in
     try
     match tokens line with
     | "ipcp" :: pa :: d1 :: d2 :: reqs ->
@@ -67,7 +91,7 @@ let () =
     | "lcp" :: magic :: reqs ->
       let m = n_of_decimal magic in
       let (outs, p) = List.fold_left (fun (acc, p) rq ->
-          let (r, p') = lcp_req fl m p (opts_of rq) in (show_res r :: acc, p')) ([], lpeer0) reqs in
+          let (r, p') = lcp_req fl m p (opts_of rq) in (show_res ~sugg:true r :: acc, p')) ([], lpeer0) reqs in
       print_endline (String.concat " | " (List.rev outs) ^ " ; P=" ^ show_lpeer p)
     | "v6" :: iid :: reqs ->
       let local = unhex iid in
@@ -78,15 +102,21 @@ let () =
     | "fsm" :: "i" :: pa :: d1 :: d2 :: st :: id :: [wire] ->
       let c = ipcp_cfg_of pa d1 d2 in
       let ((acts, st'), p) = ipcp_input c (n_of_int (int_of_string st)) ipeer0 (n_of_int (int_of_string id)) (unhex wire) in
-      Printf.printf "%s ; st=%d ; P=%s\n" (show_acts acts) (int_of_n st') (show_ipeer p)
+      let v = match parse_wire (unhex wire) with
+        | Ok os -> show_res (fst (ipcp_req c ipeer0 os)) | _ -> "unparsed" in
+      Printf.printf "%s ; st=%d ; P=%s ; V %s\n" (show_acts acts) (int_of_n st') (show_ipeer p) v
     | "fsm" :: "l" :: magic :: st :: id :: [wire] ->
       let ((acts, st'), p) = lcp_input fl (n_of_decimal magic) (n_of_int (int_of_string st)) lpeer0
           (n_of_int (int_of_string id)) (unhex wire) in
-      Printf.printf "%s ; st=%d ; P=%s\n" (show_acts acts) (int_of_n st') (show_lpeer p)
+      let v = match parse_wire (unhex wire) with
+        | Ok os -> show_res ~sugg:true (fst (lcp_req fl (n_of_decimal magic) lpeer0 os)) | _ -> "unparsed" in
+      Printf.printf "%s ; st=%d ; P=%s ; V %s\n" (show_acts ~sugg:true acts) (int_of_n st') (show_lpeer p) v
     | "fsm" :: "6" :: iid :: st :: id :: [wire] ->
       let ((acts, st'), p) = ipv6cp_input (unhex iid) (n_of_int (int_of_string st)) (List.init 8 (fun _ -> N0)) oracle
           (n_of_int (int_of_string id)) (unhex wire) in
-      Printf.printf "%s ; st=%d ; P=%s\n" (show_acts ~sugg:true acts) (int_of_n st') (hexs p)
+      let v = match parse_wire (unhex wire) with
+        | Ok os -> show_res ~sugg:true (ipv6cp_req (unhex iid) (List.init 8 (fun _ -> N0)) oracle os).v6_res | _ -> "unparsed" in
+      Printf.printf "%s ; st=%d ; P=%s ; V %s\n" (show_acts ~sugg:true acts) (int_of_n st') (hexs p) v
     | "hi" :: pa :: d1 :: d2 :: ops ->
       let s0 = { io_cfg = ipcp_cfg_of pa d1 d2; io_peer = ipeer0 } in
       let (outs, s) = List.fold_left (fun (acc, s) tok ->
@@ -109,7 +139,7 @@ let () =
             | 'T' -> (match String.split_on_char '/' tl with [x; y] -> LSetAuth (n_of_decimal x, n_of_decimal y) | _ -> failwith "T")
             | _ -> failwith "op" in
           let (s', r) = lobj_step fl s op in
-          let o = match r with Some r -> show_res r | None -> "B=" ^ show_opts (lcp_build s') in
+          let o = match r with Some r -> show_res ~sugg:true r | None -> "B=" ^ show_opts (lcp_build s') in
           (o :: acc, s')) ([], lobj0 (n_of_decimal magic)) ops in
       print_endline (String.concat " | " (List.rev outs) ^ " ; P=" ^ show_lpeer s.lo_peer)
     | "h6" :: iid :: ops ->
@@ -141,8 +171,8 @@ let () =
       let aaa_of a = if a = "none" then None else Some (unhex a) in
       let (a0, al0, rs0) = split3 start in
       let s0 = if String.length a0 > 8 && String.sub a0 0 8 = "restore:"
-        then sess_restore fl (unhex (String.sub a0 8 (String.length a0 - 8))) None None
-        else sess_start_dns fl ow (aaa_of a0) (if ow = PPPoE then aaa_dns else (None, None)) (orc_of al0 rs0) in
+        then sess_restore_f fl (unhex (String.sub a0 8 (String.length a0 - 8))) None None refuse
+        else sess_start_dns fl ow (aaa_of a0) (if ow = PPPoE then aaa_dns else (None, None)) (orc_of al0 rs0) refuse in
       let restored = String.length a0 > 8 && String.sub a0 0 8 = "restore:" in
       let first = (if kind = "sess" && not restored then "lcp=ok " else "") ^
                   (if int_of_n s0.s_fsm = 0 || int_of_n s0.s_fsm = 9 then "-" else "scr:" ^ show_opts s0.s_lastreq) ^ " a=" ^ show_addr s0.s_addr ^ " pa=" ^ show_addr s0.s_cfg.ic_assigned in
@@ -163,7 +193,7 @@ let () =
                      unhex (String.sub ev (i + 1) (String.length ev - i - 1))) in
           let (s', acts) = sess_step fl s e in
           if s.s_owner = Ended then ("ended" :: acc, s') else
-          (Printf.sprintf "%s up=%d a=%s pa=%s pn=%s" (show_acts ~callbacks:false ~req:(Some s'.s_lastreq) acts) (if s'.s_open then 1 else 0) (show_addr s'.s_addr) (show_addr s'.s_cfg.ic_assigned) (show_addr s'.s_peer.pp_addr) :: acc, s'))
+          (Printf.sprintf "%s up=%d a=%s pa=%s pn=%s" (show_acts ~callbacks:false ~req:(Some s'.s_lastreq) acts) (if s'.s_open then 1 else 0) (show_addr s'.s_addr) (show_addr s'.s_cfg.ic_assigned) (if int_of_n s'.s_fsm = 0 then "-" else show_addr s'.s_peer.pp_addr) :: acc, s'))
           ([first], s0) evs in
       print_endline (String.concat " | " (List.rev outs))
     | "s6" :: mac :: evs ->
